@@ -40,10 +40,12 @@ inductive Call
   | discard
   deriving DecidableEq, Repr
 
-/-- the transport: bytes the device has sent and that are not consumed yet, and the call log -/
+/-- the transport: bytes the device has sent and that are not consumed yet (`rx`), the bytes the
+device will send once it sees the next write (`pending` — a reply follows the command), and the call log -/
 structure Tr where
-  rx     : Bytes
-  sloppy : Bool := false
+  rx      : Bytes
+  pending : Bytes := []
+  sloppy  : Bool := false
   log    : List Call := []
   deriving Repr
 
@@ -53,7 +55,8 @@ def written : List Call → Bytes
   | .write b :: cs => b ++ written cs
   | _ :: cs => written cs
 
-def Tr.write (t : Tr) (b : Bytes) : Tr := { t with log := t.log ++ [.write b] }
+def Tr.write (t : Tr) (b : Bytes) : Tr :=
+  { t with rx := t.rx ++ t.pending, pending := [], log := t.log ++ [.write b] }
 
 def Tr.discard (t : Tr) : Tr := { t with rx := [], log := t.log ++ [.discard] }
 
